@@ -112,16 +112,22 @@ def after_fault(prod, images, ref, docs, what, through="open_alos2", target_imag
         import fsspec
 
         from ceos_alos2.sar_image import open_image
-        from ceos_alos2.xarray import to_datatree
+        from ceos_alos2.xarray import to_dataset
 
         mapper = fsspec.get_mapper(prod.url)
         group, err = harness.guard(open_image, mapper, target_image, use_cache=True, create_cache=False, records_per_chunk=1024)
         if err is not None:
             return [harness.disc("poisoned-open", what, "image group (fallback to parsing)", harness.exc_text(err))]
         gname = group.name
-        flat = harness.flatten(to_datatree(group))
-        want = {k.replace(f"/imagery/{gname}", "/", 1).replace("//", "/"): v for k, v in ref.items() if k.startswith(f"/imagery/{gname}")}
-        got = {k: v for k, v in flat.items()}
+        import xarray as xr
+
+        flat = harness.flatten(xr.DataTree.from_dict({"/": to_dataset(group)}))
+        # keys relative to the group: "/", "@attr", "#var", "#var@attr"
+        prefix = f"/imagery/{gname}"
+        want = {k[len(prefix):]: v for k, v in ref.items() if k.startswith(prefix) and k[len(prefix):][:1] in ("/", "@", "#")}
+        # the group converted on its own (the per-group conversion open_alos2 uses): keys
+        # "//", "/@attr", "/#var" -> "/", "@attr", "#var"
+        got = {k[1:]: v for k, v in flat.items()}
         return [dict(d, where=what) for d in harness.diff_flat(want, got, kind="torn-cache-differs")][:3]
     tree, err = harness.guard(harness.open_tree, prod.url)
     if err is not None:
